@@ -16,15 +16,34 @@ def strat(draw, tier):
     sd = draw(gen.state_s(space, max_hw=7 if tier == 'quick' else 9, floor_weight=1))
     f = draw(st.sampled_from(obsutil.DETERMINISTIC))
     area = draw(gen.area_s(max_ext=4 if tier == 'quick' else 5, ymax_zero=(f == 'partially_occluded')))
-    return {'state': sd, 'area': area, 'f': f, 'q': draw(st.integers(1, 3))}
+    if draw(st.integers(0, 5)) == 0:
+        # the view that covers the grid exactly, from some heading
+        h, w = M.shape(sd)
+        if f == 'partially_occluded':
+            sd['agent'][0] = h - 1
+        y, x = sd['agent'][0], sd['agent'][1]
+        sd['agent'][2] = 'F'
+        area = [[-y, h - 1 - y], [-x, w - 1 - x]]
+        sd = M.rotate_world(sd, draw(st.integers(0, 3)))
+    pre = draw(st.sampled_from([None] + [g for g in obsutil.DETERMINISTIC if g != 'partially_occluded' or area[0][1] == 0]))
+    return {'state': sd, 'area': area, 'f': f, 'q': draw(st.integers(1, 3)), 'pre': pre}
 
 
 def oracle(case, ctx):
     sd, area, f, q = case['state'], case['area'], case['f'], case['q']
-    base = guarded(ctx, f'observation {f}', obsutil.observe, f, sd, area)
+    from vgv import objs
+
+    def look(d):
+        # the same State object is observed twice (an earlier observation must not leak into the next)
+        S = objs.build_state(d)
+        if case.get('pre'):
+            guarded(ctx, f'observation {case["pre"]}', obsutil.observe, case['pre'], S, area)
+        return guarded(ctx, f'observation {f}', obsutil.observe, f, S, area)
+
+    base = look(sd)
     for k in sorted({q, 4 - q} | ({2} if q != 2 else set())):
         rd = M.rotate_world(sd, k)
-        rot = guarded(ctx, f'observation {f} of rotated world', obsutil.observe, f, rd, area)
+        rot = look(rd)
         if rot != base:
             diff = [((i, j), base['grid'][i][j], rot['grid'][i][j]) for i in range(len(base['grid'])) for j in range(len(base['grid'][0]))
                     if M.shape(rot) == M.shape(base) and base['grid'][i][j] != rot['grid'][i][j]]
@@ -33,12 +52,12 @@ def oracle(case, ctx):
     h, w = M.shape(sd)
     asym = area[1][0] != -area[1][1] or area[0][1] != 0 or M.area_shape(area)[0] != M.area_shape(area)[1]
     nonfloor = any(c not in ('F', 'H') for r in base['grid'] for c in r)
-    ctx.ev.case(case, nt=((h != w or asym) and nonfloor), classes=['f:' + f, 'heading:' + sd['agent'][2]] + (['nonsquare_grid'] if h != w else []) + (['asymmetric_area'] if asym else []),
+    ctx.ev.case(case, nt=((h != w or asym) and nonfloor), classes=['f:' + f, 'heading:' + sd['agent'][2]] + (['nonsquare_grid'] if h != w else []) + (['asymmetric_area'] if asym else []) + (['second_observation'] if case.get('pre') else []) + (['view==grid'] if M.area_shape(area) == (h, w) else []),
                 key=[sd, area, f])
 
 
 CHECKS = [
     Check('rotation_invariance', oracle, strategy=strat, examples={'quick': 500, 'thorough': 2000}, shards={'quick': 4, 'thorough': 16},
           rule='generated state x every quarter turn x area x {fully_transparent, partially_occluded, raytracing}: observation of the coordinate-rotated world == observation of the original',
-          required=['nonsquare_grid', 'asymmetric_area', 'f:raytracing', 'f:partially_occluded', 'heading:L', 'heading:B', 'heading:R', 'heading:F']),
+          required=['nonsquare_grid', 'asymmetric_area', 'second_observation', 'view==grid', 'f:raytracing', 'f:partially_occluded', 'heading:L', 'heading:B', 'heading:R', 'heading:F']),
 ]
